@@ -96,10 +96,10 @@ fn main() {
                     checks_e5::Plan {
                         prop: "C10",
                         level: "exploration",
-                        rule: "three kinds of cases on a real serve process. matrix: byte strings {empty, 1 B, non-UTF-8, 8191, 8192, 8193, 65537, random, sometimes 1 MiB} through cas_insert_sync, cas_writer_sync and cas_writer (several chunk sizes), POST /cas, POST /{topic} single and chunked; texts through .append (string / binary / record) and the return value of a command, a handler return value and generator output; every reported hash must equal a SHA-256 the harness computes itself over the documented rendering, content is read back byte for byte through the Store API and GET /cas, and the same hashes give the same bytes after a restart. race: 2-6 HTTP writers posting unique bodies (10 B - 70 kB, some chunked) with jitter at the append sync points while three followers and a handler read the content of every frame the moment it is delivered. kill: four writers posting chunked bodies, SIGKILL after 20-420 ms, reopen, every visible frame with a hash must have matching content; distinct by (mode, seed); every case non-trivial unless it observed nothing",
-                        quick: 18,
-                        thorough: 150,
-                        par: 9,
+                        rule: "four kinds of cases on a real serve process. matrix: byte strings {empty, 1 B, non-UTF-8, 8191, 8192, 8193, 65537, random, sometimes 1 MiB} through cas_insert_sync, cas_insert, cas_writer_sync and cas_writer (several chunk sizes) in a seeded order, the first writer's content read back at once, POST /cas, POST /{topic} single and chunked; texts through .append (string / binary / record) and the return value of a command, a handler return value and generator output; every reported hash must equal a SHA-256 the harness computes itself over the documented rendering, content is read back byte for byte through the Store API and GET /cas, and the same hashes give the same bytes after a restart. race: 2-6 HTTP writers posting unique bodies (10 B - 70 kB, some chunked) with jitter at the append sync points while three followers and a handler read the content of every frame the moment it is delivered. kill: four writers posting chunked bodies, SIGKILL after 20-420 ms, reopen, every visible frame with a hash must have matching content. first: on a fresh store a script entry point (generator output, .append in a command or handler, command output) is the first writer of the empty byte string and of a unique text; every frame with a hash must have its content in CAS, before and after a restart; distinct by (mode, seed); every case non-trivial unless it observed nothing",
+                        quick: 24,
+                        thorough: 200,
+                        par: 12,
                         assumptions: vec!["expected hashes come from the sha2 crate, not from ssri/cacache", "content durability against power loss is not claimed by the property and not tested"],
                         required: vec!["entry_point_writes_checked", "immediate_content_reads", "frames_checked_after_kill"],
                     },
